@@ -12,6 +12,7 @@ import Driver.C06
 import Driver.Batch
 import Driver.C10
 import Driver.C08
+import Driver.C09
 open Driver
 
 def machines : List (String × Machine × Machine) :=
@@ -29,7 +30,8 @@ def machines : List (String × Machine × Machine) :=
    ("C04", Batch.machine, Batch.judge04),
    ("C05", Batch.machine, Batch.judge05),
    ("C10", C10.machine, C10.judge),
-   ("C08", C08.machine, C08.judge)]
+   ("C08", C08.machine, C08.judge),
+   ("C09", C09.machine, C09.judge)]
 
 def main (args : List String) : IO UInt32 := do
   match args with
